@@ -136,11 +136,14 @@ func (s *sliceMachine) Discard(ctx context.Context, task *Task) {
 		return
 	}
 	// s exclusively owns task's state during this time, so this does not race
-	// with anything else.
-	task.Set(TaskLost)
+	// with anything else. The task is released (as lost) only once the worker
+	// has discarded its output: if it were released first, a concurrent
+	// evaluation could recompute the task on this machine and the late
+	// discard would then remove the new output of a task considered done.
 	if err := s.RetryCall(ctx, "Worker.Discard", task.Name, nil); err != nil {
 		log.Error.Printf("error discarding %v: %v", task, err)
 	}
+	task.Set(TaskLost)
 }
 
 // Go manages a sliceMachine: it polls stats at regular intervals and
